@@ -74,16 +74,17 @@ Memo(sys, I) ==
 
 (* The instance is exact and stays away from the clamps of divide_and_truncate (quotient       *)
 (* limit 10^4, numerators below 10^-6 of the maximum), which the property excludes ("wherever  *)
-(* ybar_b > 0").  A bin with d = 0 must have an empty row and no counts.                       *)
+(* ybar_b > 0").  A bin with mean 0 must have no counts (then it contributes -n_b P_b to the    *)
+(* gradient, nothing to the Hessian and nothing to the value, as the definition says).         *)
 InstanceOk(sys, I, m) ==
   /\ Len(I.lam) = sys.nv /\ Len(I.x) = sys.nv
   /\ Len(I.y) = NB(sys) /\ Len(I.a) = NB(sys) /\ Len(I.ef) = NB(sys)
   /\ I.N >= 1 /\ I.maxSeg \in 0..sys.maxSegData
   /\ (~I.uss => sys.numViews % I.N = 0)           \* without subset sensitivities the subsets must be balanced
-  /\ \A v \in 1..sys.nv : I.lam[v] \in 1..64 /\ I.x[v] \in 0..64
+  /\ \A v \in 1..sys.nv : I.lam[v] \in 0..64 /\ I.x[v] \in 0..64
   /\ \A b \in 1..NB(sys) :
        /\ I.a[b] >= 0 /\ I.y[b] >= 0 /\ I.y[b] < 1000000 /\ I.ef[b] \in -2..0
-       /\ m.d[b] = 0 => (I.y[b] = 0 /\ sys.rows[b] = <<>>)
+       /\ m.d[b] = 0 => I.y[b] = 0
        /\ m.d[b] > 0 => /\ m.d[b] <= 1000
                         /\ I.y[b] % (m.d[b] * m.d[b]) = 0
                         /\ I.y[b] \div m.d[b] < 10000
